@@ -224,9 +224,12 @@ def run(ctx):
             seen = {}
             for key in out.get("gates", []):
                 seen[key] = seen.get(key, 0) + 1
-                if key.startswith("y:client.go"):
+                if key.startswith(("y:client.go", "y:e:client.go")):
                     ydelay.append(dict(sc, id="ydelay/%s/%s#%d" % (sc["id"][6:], key, seen[key]), mode="delay", delay_key=key, delay_nth=seen[key]))
         rng.shuffle(ydelay)
+        # statements at the edge of a critical section (they take a lock, or follow an unlock / wake-up / send) are held
+        # first: the windows between critical sections are where hand-overs go wrong
+        ydelay.sort(key=lambda d: 0 if d["delay_key"].startswith("y:e:") else 1)
         ydelay = ydelay[: (1500 if thorough else 120)]
         for sc, rr in zip(ydelay, A.run_driver(ctx, ydelay, binary=ybin, label="c05yd")):
             out = judge(ctx, sc, rr, "delay " + sc["delay_key"])
